@@ -145,3 +145,56 @@ func EmitInMapOrder(m map[int][]byte) []byte {
 	}
 	return out
 }
+
+// StickyDecoder keeps state between calls: CARRY controls.
+type StickyDecoder struct {
+	seen    [][]byte // accumulate-only (P1)
+	palette []byte   // assigned only when the input carries one (P2)
+	scratch []byte   // buffer reuse keyed on capacity: must NOT be reported
+	width   int      // always assigned first: must be discharged
+}
+
+// Decode is the per-call entry.
+func (d *StickyDecoder) Decode(data []byte) []byte {
+	d.width = len(data)
+	if cap(d.scratch) < d.width {
+		d.scratch = make([]byte, d.width)
+	}
+	buf := d.scratch[:d.width]
+	copy(buf, data)
+	if len(data) > 4 && data[0] == 'P' {
+		d.palette = append([]byte(nil), data[1:4]...)
+	}
+	d.seen = append(d.seen, buf)
+	out := make([]byte, 0, d.width+len(d.palette))
+	out = append(out, buf...)
+	out = append(out, d.palette...)
+	out = append(out, byte(len(d.seen)))
+	return out
+}
+
+// ReuseCodec allocates a StickyDecoder outside its frame loop (discovered CARRY target).
+type ReuseCodec struct{}
+
+func (c *ReuseCodec) Name() string                            { return "reuse" }
+func (c *ReuseCodec) TransferSyntax() *transfer.Syntax        { return nil }
+func (c *ReuseCodec) GetDefaultParameters() codec.Parameters { return nil }
+func (c *ReuseCodec) Encode(oldPixelData, newPixelData imagetypes.PixelData, parameters codec.Parameters) error {
+	return nil
+}
+func (c *ReuseCodec) Decode(oldPixelData, newPixelData imagetypes.PixelData, parameters codec.Parameters) error {
+	dec := &StickyDecoder{}
+	n := oldPixelData.FrameCount()
+	for i := 0; i < n; i++ {
+		f, err := oldPixelData.GetFrame(i)
+		if err != nil {
+			return err
+		}
+		if err := newPixelData.AddFrame(dec.Decode(f)); err != nil {
+			return err
+		}
+	}
+	return nil
+}
+
+var _ codec.Codec = (*ReuseCodec)(nil)
